@@ -49,6 +49,7 @@ type universe struct {
 	SysVar  []byte   // 0xff*31 || 0x01: passes IsSystemAccountAddress (30-byte prefix) but is not the canonical system account
 	HiTok   []byte   // an SFT identifier whose nonces run past 256 (nonces whose big-endian form ends in a zero byte)
 	rich    bool     // set by populateRich: the generators then also draw from the rich pools
+	onStep  func(sr *stepResult) // called after every set-up step of populateRich (runners that keep their own view of the history)
 }
 
 // amounts that do not fit 64 bits
@@ -106,6 +107,10 @@ func (u *universe) stdWorld(nShards int, sysShard uint32, gas map[string]map[str
 		w.shardTab[string(a)] = metaShard
 	}
 	w.shardTab[string(u.SysVar)] = sysShard
+	place(userAddr(0x41), 1) // two users of shard 1 that hold nothing
+	place(scAddr(0x44), 1)   // a contract of shard 1 that is NOT payable
+	w.payTab[string(scAddr(0x44))] = 'N'
+	place(userAddr(0x42), 1)
 	w.shardDflt = 0
 	w.dns = [][]byte{u.DNS}
 	w.payTab[string(u.K[0])] = 'Y'
@@ -181,6 +186,12 @@ func (u *universe) populate(w *hWorld) {
 // All through real calls of the library, so the resulting world is reachable.
 func (u *universe) populateRich(w *hWorld) {
 	u.rich = true
+	mustOK := func(sr *stepResult, what string) {
+		mustOK(sr, what)
+		if u.onStep != nil {
+			u.onStep(sr)
+		}
+	}
 	mustOK(w.sys(u, u.U[1], "ESDTTransfer", u.Fung[1], big64(1000)), "whale issue")
 	mustOK(w.sys(u, u.U[2], "ESDTTransfer", u.Fung[1], new(big.Int).Lsh(big.NewInt(1), 70).Bytes()), "whale issue")
 	mustOK(w.tx(u.U[0], u.U[0], "ESDTNFTCreate", bigGas, u.NFTs[1], big64(77), []byte("whale"), be(250), []byte("hash-whale"), []byte("attr"), []byte("uri1")), "whale create")
@@ -221,6 +232,9 @@ func richTour(u *universe, w *hWorld) []func() *worldOp {
 				Snd: false, Dst: true, FailAt: -1}}
 		}
 	}
+	tweak := func(f func() *worldOp, t func(cs *callSpec)) func() *worldOp {
+		return func() *worldOp { op := f(); t(op.Call); return op }
+	}
 	cr, hi := u.U[2], u.HiTok
 	create := tx(cr, cr, "ESDTNFTCreate", hi, be(9), []byte("hi"), be(1), []byte("hash-hi-t"), []byte("attr"), []byte("uri"))
 	var l []func() *worldOp
@@ -243,14 +257,14 @@ func richTour(u *universe, w *hWorld) []func() *worldOp {
 		tx(u.U[1], u.U[2], "ESDTTransfer", u.Fung[1], big64(6)),
 		tx(u.U[1], u.U[1], "MultiESDTNFTTransfer", tkMulti(u.U[2], u.Fung[1], nil, big64(7), u.Fung[0], nil, be(3))...),
 		tx(u.U[1], u.U[1], "MultiESDTNFTTransfer", tkMulti(u.U[0], u.Fung[1], nil, big64(8))...),
-		tx(u.U[0], u.U[0], "ESDTNFTTransfer", u.NFTs[1], be(4), big64(9), u.U[2]),
-		tx(u.U[0], u.U[0], "ESDTNFTTransfer", u.NFTs[1], be(4), big64(2), u.U[1]),
-		tx(u.U[0], u.U[0], "MultiESDTNFTTransfer", tkMulti(u.U[3], u.NFTs[1], be(4), big64(1), u.NFTs[1], be(1), be(2))...),
+		tx(u.U[0], u.U[0], "ESDTNFTTransfer", u.NFTs[1], be(3), big64(9), u.U[2]),
+		tx(u.U[0], u.U[0], "ESDTNFTTransfer", u.NFTs[1], be(3), big64(2), u.U[1]),
+		tx(u.U[0], u.U[0], "MultiESDTNFTTransfer", tkMulti(u.U[3], u.NFTs[1], be(3), big64(1), u.NFTs[1], be(1), be(2))...),
 		tx(u.U[2], u.U[2], "ESDTLocalBurn", u.Fung[1], big64(1)),
 		tx(u.U[2], u.U[2], "ESDTLocalMint", u.Fung[1], big64(2)),
 		tx(u.U[2], u.SC, "ESDTBurn", u.Fung[1], big64(1)),
-		tx(u.U[0], u.U[0], "ESDTNFTBurn", u.NFTs[1], be(4), big64(1)),
-		tx(u.U[0], u.U[0], "ESDTNFTAddQuantity", u.NFTs[1], be(4), big64(4)),
+		tx(u.U[0], u.U[0], "ESDTNFTBurn", u.NFTs[1], be(3), big64(1)),
+		tx(u.U[0], u.U[0], "ESDTNFTAddQuantity", u.NFTs[1], be(3), big64(4)),
 	)
 	// nonce arguments wider than 8 bytes (non-zero multiples of 2^64 and 2^64+1), on fungible tokens the caller holds with every role, and on NFTs
 	for _, nb := range [][]byte{big64(0), new(big.Int).Lsh(big.NewInt(1), 72).Bytes(), big64(1)} {
@@ -272,17 +286,17 @@ func richTour(u *universe, w *hWorld) []func() *worldOp {
 		manyURIs = append(manyURIs, long(byte('a'+i), 1+i*23))
 	}
 	l = append(l,
-		tx(u.U[0], u.U[0], "ESDTNFTCreate", append([][]byte{u.NFTs[1], be(40), long('n', 300), be(10000), long('h', 200), long('t', 700)}, manyURIs...)...), // NFTs[1] nonce 5
-		tx(u.U[0], u.U[0], "ESDTNFTTransfer", u.NFTs[1], be(5), be(3), u.U[1]),
-		tx(u.U[0], u.U[0], "ESDTNFTTransfer", u.NFTs[1], be(5), be(4), u.U[2]),
-		tx(u.U[0], u.U[0], "ESDTNFTAddURI", append([][]byte{u.NFTs[1], be(5)}, manyURIs[3:9]...)...),
-		tx(u.U[0], u.U[0], "ESDTNFTUpdateAttributes", u.NFTs[1], be(5), long('A', 1000)),
+		tx(u.U[0], u.U[0], "ESDTNFTCreate", append([][]byte{u.NFTs[1], be(40), long('n', 300), be(10000), long('h', 200), long('t', 700)}, manyURIs...)...), // NFTs[1] nonce 4 (populate: 1, 2; populateRich: 3)
+		tx(u.U[0], u.U[0], "ESDTNFTTransfer", u.NFTs[1], be(4), be(3), u.U[1]),
+		tx(u.U[0], u.U[0], "ESDTNFTTransfer", u.NFTs[1], be(4), be(4), u.U[2]),
+		tx(u.U[0], u.U[0], "ESDTNFTAddURI", append([][]byte{u.NFTs[1], be(4)}, manyURIs[3:9]...)...),
+		tx(u.U[0], u.U[0], "ESDTNFTUpdateAttributes", u.NFTs[1], be(4), long('A', 1000)),
 		tx(u.U[0], u.U[0], "MultiESDTNFTTransfer", tkMulti(u.U[3],
-			u.Fung[0], nil, be(1), u.NFTs[1], be(5), be(1), u.Fung[1], nil, be(2), u.NFTs[1], be(1), be(1), u.Fung[2], nil, be(3), u.NFTs[1], be(2), be(1),
-			u.Fung[0], nil, be(4), u.NFTs[1], be(5), be(2), u.NFTs[0], be(1), be(1), u.Fung[1], nil, be(5), u.NFTs[1], be(4), be(6), u.Fung[2], nil, be(7))...),
+			u.Fung[0], nil, be(1), u.NFTs[1], be(4), be(1), u.Fung[1], nil, be(2), u.NFTs[1], be(1), be(1), u.Fung[2], nil, be(3), u.NFTs[1], be(2), be(1),
+			u.Fung[0], nil, be(4), u.NFTs[1], be(4), be(2), u.NFTs[0], be(1), be(1), u.Fung[1], nil, be(5), u.NFTs[1], be(3), be(6), u.Fung[2], nil, be(7))...),
 		tx(u.U[0], u.U[0], "MultiESDTNFTTransfer", tkMulti(u.U[1],
-			u.Fung[0], nil, be(1), u.NFTs[1], be(5), be(1), u.Fung[1], nil, be(2), u.NFTs[1], be(1), be(1), u.Fung[2], nil, be(3), u.NFTs[1], be(2), be(1),
-			u.Fung[0], nil, be(4), u.NFTs[1], be(5), be(2), u.Fung[1], nil, be(5), u.NFTs[1], be(4), be(6), u.Fung[2], nil, be(7), []byte("fn"), []byte("arg"))...),
+			u.Fung[0], nil, be(1), u.NFTs[1], be(4), be(1), u.Fung[1], nil, be(2), u.NFTs[1], be(1), be(1), u.Fung[2], nil, be(3), u.NFTs[1], be(2), be(1),
+			u.Fung[0], nil, be(4), u.NFTs[1], be(4), be(2), u.Fung[1], nil, be(5), u.NFTs[1], be(3), be(6), u.Fung[2], nil, be(7), []byte("fn"), []byte("arg"))...),
 		tx(u.U[0], u.U[0], "SaveKeyValue", []byte("k1"), long('v', 300), []byte("key2"), nil, []byte("k3"), long('w', 5), []byte("k1"), long('x', 2), []byte("kk"), long('y', 129)),
 	)
 	// one cell listed twice: each quantity within the holding, the sum above it
@@ -319,7 +333,15 @@ func richTour(u *universe, w *hWorld) []func() *worldOp {
 		tx(u.U[0], u.K[0], "ChangeOwnerAddress", u.U[1]),
 		tx(u.U[0], u.K[0], "ClaimDeveloperRewards"),
 		tx(u.U[1], u.K[0], "ClaimDeveloperRewards"),
-		tx(u.U[1], u.K[0], "ChangeOwnerAddress", u.U[3]), // new owner on another shard
+		tx(u.U[1], u.K[0], "ChangeOwnerAddress", scAddr(0x33)), // the owner is now a contract of the same shard
+		func() *worldOp {
+			cs := w.mkCall(0, "ClaimDeveloperRewards", scAddr(0x33), u.K[0], nil, bigGas)
+			cs.CallType, cs.Locked = vmcommon.AsynchronousCall, 3
+			return &worldOp{Kind: opTx, Call: cs}
+		},
+		tx(scAddr(0x33), u.K[0], "ClaimDeveloperRewards"),
+		tweak(tx(scAddr(0x33), u.K[0], "ClaimDeveloperRewards"), func(cs *callSpec) { cs.CallType = vmcommon.AsynchronousCallBack }),
+		tx(scAddr(0x33), u.K[0], "ChangeOwnerAddress", u.U[3]), // new owner on another shard
 		tx(u.U[3], u.K[0], "ClaimDeveloperRewards"),      // origin side only; the message is delivered
 		tx(u.DNS, u.U[1], "SetUserName", []byte("carol.elrond")),
 		tx(u.DNS, u.U[1], "SetUserName", []byte("carol2.elrond")),
@@ -337,9 +359,6 @@ func richTour(u *universe, w *hWorld) []func() *worldOp {
 		tx(u.U[0], u.U[0], "ESDTNFTCreate", hi, be(1), []byte("hi5"), be(2), []byte("hash-hi-u0b"), []byte("attr"), []byte("uri")),
 	)
 	// ---- shapes of state and flag combinations (round 4) ----
-	tweak := func(f func() *worldOp, t func(cs *callSpec)) func() *worldOp {
-		return func() *worldOp { op := f(); t(op.Call); return op }
-	}
 	raeCB := func(cs *callSpec) { cs.RAE, cs.CallType = true, vmcommon.AsynchronousCallBack }
 	raeDirect := func(cs *callSpec) { cs.RAE = true }
 	whole := func(a, tok []byte) []byte { // the account's whole balance of a fungible token, at the time of the step
@@ -437,6 +456,57 @@ func richTour(u *universe, w *hWorld) []func() *worldOp {
 		l = append(l,
 			sysAs(u.SC, u.U[3], u.U[3], "ESDTFreeze", id),
 			sysAs(u.SC, u.U[3], u.U[3], "ESDTWipe", id),
+		)
+	}
+	// ---- round 5 ----
+	// (g) byte-identical NFT payloads delivered to several accounts of the other shard, the first of which already holds the token
+	f1, f2 := userAddr(0x41), userAddr(0x42)
+	l = append(l,
+		tx(u.U[0], u.U[0], "ESDTNFTTransfer", u.NFTs[1], be(4), be(2), u.U[2]),
+		tx(u.U[0], u.U[0], "ESDTNFTTransfer", u.NFTs[1], be(4), be(2), f1),
+		tx(u.U[0], u.U[0], "ESDTNFTTransfer", u.NFTs[1], be(4), be(2), f2),
+		tx(u.U[0], u.U[0], "MultiESDTNFTTransfer", tkMulti(u.U[2], u.NFTs[1], be(1), be(1))...),
+		tx(u.U[0], u.U[0], "MultiESDTNFTTransfer", tkMulti(f1, u.NFTs[1], be(1), be(1))...),
+		tx(u.U[0], u.U[0], "MultiESDTNFTTransfer", tkMulti(f2, u.NFTs[1], be(1), be(1), u.NFTs[1], be(1), be(1))...),
+	)
+	// (h) freeze and unfreeze of ONE NFT instance (key = identifier ++ nonce) at its holder, then a transfer of it
+	nftKey := append(append([]byte{}, u.NFTs[1]...), 2)
+	l = append(l,
+		sysAs(u.SC, u.U[0], u.U[0], "ESDTFreeze", nftKey),
+		tx(u.U[0], u.U[0], "ESDTNFTTransfer", u.NFTs[1], be(2), be(1), u.U[1]), // frozen: refused
+		sysAs(u.SC, u.U[0], u.U[0], "ESDTUnFreeze", nftKey),
+		tx(u.U[0], u.U[0], "ESDTNFTTransfer", u.NFTs[1], be(2), be(1), u.U[1]),
+		tx(u.U[0], u.U[0], "ESDTNFTAddURI", u.NFTs[1], be(2), []byte("uri-after-unfreeze")),
+	)
+	// (j) a call rejected AFTER it started charging, then the same function succeeds (nothing of the rejected call may be left behind)
+	l = append(l,
+		tx(u.U[0], u.U[0], "SaveKeyValue", []byte("k9"), []byte("v9"), []byte("ELRONDx"), []byte("v")),
+		tx(u.U[0], u.U[0], "SaveKeyValue", []byte("k9"), []byte("v9")),
+		tweak(tx(u.U[0], u.U[0], "SaveKeyValue", []byte("k8"), bytes.Repeat([]byte{'z'}, 200)), func(cs *callSpec) { cs.Gas = 50 }),
+		tx(u.U[0], u.U[0], "SaveKeyValue", []byte("k8"), []byte("v8")),
+		tweak(tx(u.U[0], u.U[0], "ESDTNFTCreate", u.NFTs[0], be(1), []byte("n"), be(1), []byte("h"), bytes.Repeat([]byte{'a'}, 300), []byte("u")), func(cs *callSpec) { cs.Gas = 60 }),
+		tx(u.U[0], u.U[0], "ESDTNFTCreate", u.NFTs[0], be(1), []byte("n"), be(1), []byte("h"), []byte("a"), []byte("u")),
+	)
+	// (k) freeze, then wipe, of a collection identifier at the account that holds its create role and has issued nonces; then a create
+	l = append(l,
+		sysAs(u.SC, u.U[3], u.U[3], "ESDTFreeze", hi),
+		sysAs(u.SC, u.U[3], u.U[3], "ESDTWipe", hi),
+		tx(u.U[3], u.U[3], "ESDTNFTCreate", hi, be(1), []byte("after-wipe"), be(1), []byte("hash-aw"), []byte("attr"), []byte("uri")),
+		sysAs(u.SC, u.U[0], u.U[0], "ESDTFreeze", u.NFTs[0]),
+		sysAs(u.SC, u.U[0], u.U[0], "ESDTWipe", u.NFTs[0]),
+		tx(u.U[0], u.U[0], "ESDTNFTCreate", u.NFTs[0], be(1), []byte("after-wipe"), be(1), []byte("hash-aw"), []byte("attr"), []byte("uri")),
+	)
+	// (l) call types that lift the payability check, WITHOUT an attached call, towards a non-payable contract of the other shard: the
+	//     emitted message must carry what the destination side needs to accept it (and the same towards the payable contract)
+	kn := scAddr(0x44)
+	for _, ct := range []vmcommon.CallType{vmcommon.AsynchronousCallBack, vmcommon.ESDTTransferAndExecute, vmcommon.DirectCall} {
+		ct := ct
+		setCT := func(cs *callSpec) { cs.CallType = ct }
+		l = append(l,
+			tweak(tx(u.U[0], kn, "ESDTTransfer", u.Fung[0], be(2)), setCT),
+			tweak(tx(u.U[0], u.U[0], "ESDTNFTTransfer", u.NFTs[1], be(1), be(1), kn), setCT),
+			tweak(tx(u.U[0], u.U[0], "MultiESDTNFTTransfer", tkMulti(kn, u.Fung[0], nil, be(1), u.NFTs[1], be(1), be(1))...), setCT),
+			tweak(tx(u.U[0], u.U[0], "ESDTNFTTransfer", u.NFTs[1], be(1), be(1), u.K[1]), setCT),
 		)
 	}
 	// a pause addressed to the non-canonical system-account address, a transfer of the token on that shard, the unpause
